@@ -3,6 +3,7 @@
 import json, os
 ROOT = os.path.dirname(os.path.dirname(os.path.abspath(__file__)))
 NA = {}
+PIN_NOTE = " Source pins: the model is also pinned, function by function, to fingerprints of the source it was validated against (gen/srcpin -> Gen/Pin_Cxx.v, obligation Cxx_source_pinned in coq/theories/Pins); an edit of a pinned function that neither the monitor nor the correspondence can distinguish is reported as VIOLATION ... no-failing-input-found."
 ENGINE = "coq-model+correspondence"
 TECH = "Coq theorems over a Gallina model + extracted-model/implementation correspondence"
 
@@ -51,7 +52,7 @@ def main():
               "evidence_file": "evidence/%s.json" % i, "replay_cmd_template": "bin/check %s --replay {path}" % i,
               "engine": ENGINE,
               "level_claimed": {"category": "proof", "text": c['text'], "design_ref": c['ref']},
-              "level_note": c['note'], "technique": c.get('technique', TECH)})
+              "level_note": c['note'] + PIN_NOTE, "technique": c.get('technique', TECH)})
         else:
             m['not_applicable'].append({"property_id": i, "reason": NA.get(i, "check not built yet (work in progress; design in DESIGN.md section 5)")})
     with open(os.path.join(ROOT, 'MANIFEST.json'), 'w') as f:
